@@ -4,7 +4,7 @@
    generated function equals the model function the property theorems are about. Theorem names are
    <property>_source_<function>; lib/gen_tie.py attributes them to the properties by that name.
    Statements only. [G] is the generated module, [MR] Model/Result.v, [MD] Model/Dispatcher.v, [MJ]
-   Model/Junit.v, [MU] Model/UnitTimers.v, [MF] Model/FilterFull.v; the conversion functions
+   Model/Junit.v, [MU] Model/UnitTimers.v, [MF] Model/FilterFull.v, [MFl] Model/Filter.v; the conversion functions
    (stats_to_model, result_to_model, statuses_view, ...) are the small total maps between the
    generated types and the model types defined next to the lemmas in Proofs/GenBridge.v. *)
 From Coq Require Import List NArith ZArith Bool.
@@ -180,3 +180,41 @@ Theorem C04_source_is_match :
   forall m, G.FilterBinaryMatch_is_match m = MF.b_is_match (bmatch_to_model m).
 Proof. exact gen_is_match_is_model. Qed.
 Print Assumptions C04_source_is_match.
+
+(* C01: the last step from the verdict to the process exit status. [G.exec_run_exit] is the final `match`
+   of App::exec_run (cargo-nextest/src/dispatch.rs) as a function of the statistics and the --no-tests
+   policy; [process_exit] is what main() does with its value (Ok(code) -> exit(code), Err(e) ->
+   exit(e.process_exit_code())), with ExpectedError::process_exit_code and the NextestExitCode constants
+   (nextest-metadata/src/exit_codes.rs) translated as well (restricted to the three errors that match
+   can produce). With this, [exit_code (summarize_final s) p] in C01_exit_is_spec / C01_exit_zero_iff /
+   C01_codes is the exit status the source text computes from the final statistics: 0 / 4 / 100 / 105. *)
+Theorem C01_source_exec_run_exit :
+  forall s p,
+    process_exit (G.exec_run_exit s p) = MR.exit_code (MR.summarize_final (stats_to_model s)) (policy_to_model p).
+Proof. exact gen_exec_run_exit_is_model. Qed.
+Print Assumptions C01_source_exec_run_exit.
+
+(* C04 (C04_selected_iff, C04_first_reason): the run-ignored stage. *)
+Theorem C04_source_filter_ignored_mismatch :
+  forall f ignored,
+    option_map fmatch_to_model (G.TestFilter_filter_ignored_mismatch f ignored) =
+    option_map MFl.Mismatch (MFl.filter_ignored (run_ignored_to_model (G.TestFilter_builder_run_ignored f)) ignored).
+Proof. exact gen_filter_ignored_mismatch_is_model. Qed.
+Print Assumptions C04_source_filter_ignored_mismatch.
+
+(* C04 (C04_selected_iff, C04_first_reason) and C13 (count partitioning applies after every other filter):
+   the ORDER of the stages of TestFilter::filter_match as written in the source -- ignored, then name and
+   expression with the name reason first, then the partition, else Matches. The verdicts of
+   filter_name_match / filter_expression_match / filter_partition_mismatch are inputs of the generated
+   function (their bodies involve strings and filtersets and stay with the differential stages);
+   [part_input] is the partition stage's answer for the model's partitioner state. *)
+Theorem C04_source_filter_match :
+  forall f bound ignored nm em pb cur name,
+    fmatch_to_model (G.TestFilter_filter_match f bound ignored nm em (part_input pb cur name)) =
+    fst (MFl.filter_match
+           (match MFl.filter_ignored (run_ignored_to_model (G.TestFilter_builder_run_ignored f)) ignored with
+            | Some r => Some r
+            | None => MFl.combine_name_expr (name_match_to_model nm) (name_match_to_model em)
+            end) pb cur name).
+Proof. exact gen_filter_match_is_model. Qed.
+Print Assumptions C04_source_filter_match.
